@@ -203,8 +203,10 @@ def r4(cx):
             kind = pa.root(h, kc.args[1])
             on = pv.root(h, kc.args[2])
             ok = kind[0] == "agg" and kind[2] == "Catch" and (_root_field(on) == "on")
+    from rules.common import children_in_selector
+    children_in_selector(cx, "C06.R4", "catch")
     cx.ob("C06.R4", "catch:steps", ok and len(sched) == 1, "the steps started are the node's Catch outputs registered for this catch's `on`", sched[0].loc if sched else h.loc())
-    cx.floor("C06.R4", 4)
+    cx.floor("C06.R4", 5)
 
 
 def _root_field(r):
